@@ -33,13 +33,17 @@ package gnmi
 // kind of the onos-lib-go TypedError that errors.FromGRPC builds for a gRPC code (table in onos-lib-go errors.go)
 //@ spec kindOfCode(c int) int = ite(c == codes.Canceled, errors.Canceled, ite(c == codes.NotFound, errors.NotFound, ite(c == codes.AlreadyExists, errors.AlreadyExists, ite(c == codes.Unauthenticated, errors.Unauthorized, ite(c == codes.PermissionDenied, errors.Forbidden, ite(c == codes.FailedPrecondition, errors.Conflict, ite(c == codes.InvalidArgument, errors.Invalid, ite(c == codes.Unavailable, errors.Unavailable, ite(c == codes.Unimplemented, errors.NotSupported, ite(c == codes.DeadlineExceeded, errors.Timeout, ite(c == codes.Internal, errors.Internal, errors.Unknown)))))))))))
 
-//@ iface Client.Set(ctx, r) (resp, err)
+//@ uninterp connIDOf(Conn) string
+// the identifier of the connection the last Set went over
+//@ ghost lastSetConnID string
+//@ iface Client.Set(this, ctx, r) (resp, err)
 //@   probe deviceCode: deviceCode
 //@   requires r != nil
-//@   modifies deviceSetFailures, deviceSetCalls, deviceCode, lastSetElectionLow, lastSetElectionHigh, lastSetHasArbitration, lastSetConn, lastSetRequest
+//@   modifies lastSetConnID, deviceSetFailures, deviceSetCalls, deviceCode, lastSetElectionLow, lastSetElectionHigh, lastSetHasArbitration, lastSetConn, lastSetRequest
 //@   ensures deviceSetCalls == old(deviceSetCalls) + 1
 //@   ensures deviceSetFailures == old(deviceSetFailures) + ite(err == nil, 0, 1)
 //@   ensures lastSetRequest == r
+//@   ensures lastSetConnID == connIDOf(this)
 //@   ensures lastSetHasArbitration == hasArbitration(r)
 //@   ensures hasArbitration(r) ==> lastSetElectionLow == electionLow(r) && lastSetElectionHigh == electionHigh(r)
 //@   ensures 0 <= deviceCode && deviceCode <= 16
@@ -78,7 +82,6 @@ package gnmi
 //@   ensures lastConnGetOK == ok
 //@   ensures ok ==> conn != nil
 //@   ensures ok ==> connIDOf(conn) == connID
-//@ uninterp connIDOf(Conn) string
 
 // northbound relay of subscriptions
 //@ ghost targetLookups map[string]bool
